@@ -421,6 +421,12 @@ impl InnerLocustDB {
                 .values()
                 .cloned()
                 .collect::<Vec<_>>();
+            #[cfg(locustdb_verif)]
+            crate::verif::event("FlushLock", || {
+                let mut names: Vec<&str> = tables.iter().map(|t| t.name()).collect();
+                names.sort();
+                serde_json::json!({"lo": unflushed_wal_ids.start, "hi": unflushed_wal_ids.end, "tables": names})
+            });
             for table in &tables {
                 table.freeze_buffer();
             }
